@@ -107,6 +107,24 @@ pub fn run(ctx: &mut Ctx) {
             }
             (alpha, c)
         };
+        // one coefficient exactly zero (the first-order term in particular) with warping on
+        let c = {
+            let mut c = c;
+            if idx % 16 == 9 && order >= 3 {
+                let k = *rng.pick(&[1usize, 1, 2, order - 1]);
+                c[k] = 0.0;
+            }
+            c
+        };
+        // another vocoder renders a *moving* spectrum on this thread first: a fresh vocoder's
+        // response must not depend on what other objects did before
+        if idx % 2 == 1 {
+            let mut other = Vocoder::new(order, 0, 0, false, rate, alpha, 0.0, 1.0, 40);
+            let mut scratch = vec![0.0; 40];
+            let moved: Vec<f64> = c.iter().enumerate().map(|(m, x)| x + 0.3 / (1.0 + m as f64)).collect();
+            other.synthesize(crate::pulse::LN20, &c, &[], &mut scratch);
+            other.synthesize(crate::pulse::LN20, &moved, &[], &mut scratch);
+        }
         let shape = shape_of(&c, alpha);
         let p = rate / 20;
         let voc = Vocoder::new(order, 0, 0, false, rate, alpha, 0.0, 1.0, p);
